@@ -50,7 +50,7 @@ def canon_compiler(m):
         return ('NOKEY', repr(exc))
 
 
-def bfs(problem, max_depth, acc, max_states=None, on_state=None):
+def bfs(problem, max_depth, acc, max_states=None, on_state=None, shard=None):
     """Depth-iterated BFS.  Returns dict(states, transitions, depth_completed, fixpoint)."""
     s0 = problem.new()
     k0 = problem.canon(s0)
@@ -67,6 +67,9 @@ def bfs(problem, max_depth, acc, max_states=None, on_state=None):
             # enabled ops are computed on a fresh replay of hist
             if problem.static_ops:
                 ops = problem.ops
+                if shard and depth == 1:
+                    # shard k of n explores the subtrees below every n-th first operation
+                    ops = [o for i, o in enumerate(ops) if i % shard[1] == shard[0]]
             else:
                 base = problem.new()
                 for o in hist:
